@@ -193,6 +193,22 @@ def r2(ctx):
   fs = prog.func(V, 'VarzMetric.ForSource')
   ctx.ob('C18.R2', fs, 'ForSource binds the given source', U(fs.node.body[-1]).replace(' ', '') == 'returntype(self)(self._metric,source)', 'ForSource changed',
          'a metric specialised for a source must record against that source', nontrivial=False)
+  # a Varz holder binds each of ITS metrics to the source, every time it is built: the bound metric carries the full metric name of its class
+  vb = prog.func(V, '_VarzBase.__init__')
+  okb = True
+  nb = 0
+  for ev, ex in enum_paths(ctx, vb, unroll=1):
+    sets = [(i, e.node) for i, e in enumerate(ev) if e.kind == 'call' and isinstance(e.node.func, ast.Name) and e.node.func.id == 'setattr' and len(e.node.args) == 3]
+    for i, c in sets:
+      nb += 1
+      val = resolved_text(ev, i, c.args[2])
+      if not (val.endswith('.ForSource(source)') or '.ForSource(' in val and val.endswith(')')) or '.get(' in val:
+        okb = False
+  cached = [st for st in ast.walk(prog.cls(V, '_VarzBase').node) if isinstance(st, ast.Assign) and isinstance(st.value, ast.Dict) and not st.value.keys
+            and U(st.targets[0]) not in ('_VARZ',)]
+  ctx.ob('C18.R2', vb, 'every Varz holder binds its own metrics to its source (no sharing of bound metrics between holders or classes)', okb and nb >= 1 and not cached,
+         'bound metrics come from %s' % ([U(st.targets[0]) for st in cached] or 'something else than <metric>.ForSource(source)'),
+         'the attribute name of a metric (size, errors, messages_sent) is shared by many Varz classes: a bound metric reused across holders records under another class\'s metric name')
   # dispatcher per-reply source
   d = prog.func('scales/dispatch.py', '_AsyncResponseSink.AsyncProcessResponse')
   ctor = [c for c in walk_no_nested(d.node) if isinstance(c, ast.Call) and U(c.func) == 'Source']
